@@ -23,7 +23,7 @@ TOL = 1e-9
 
 def _programs(tier, seed):
     rng = random.Random(10_000 + seed)
-    n = 72 if tier == "quick" else 600
+    n = 60 if tier == "quick" else 600
     dmax = 2 if tier == "quick" else 3
     kmax = 6 if tier == "quick" else 7
     progs = []
